@@ -19,6 +19,9 @@ type Subscription struct {
 	sub   Subscriber
 	field *Field
 	args  map[string]interface{}
+
+	// typ is the type of the events, the type of the subscription field.
+	typ Type
 }
 
 // NewSubscription creates a new subscription. It should be called in a
@@ -32,5 +35,7 @@ func NewSubscription(sub Subscriber, field *Field, args map[string]interface{}) 
 }
 
 func (sub *Subscription) prep(root *Root) {
-	sub.field.ConType = root.getFieldType(sub.field.ConType, sub.field.Name)
+	// The field belongs to the parsed request, which can be resolved again,
+	// so the type of the events is kept here and not on the field.
+	sub.typ = root.getFieldType(sub.field.ConType, sub.field.Name)
 }
